@@ -10,6 +10,7 @@ import ProphyModel.Accept
 import ProphyModel.Lemmas.WFAccept
 import ProphyModel.Lemmas.AcceptImplies
 import ProphyModel.Lemmas.ModelAccept
+import ProphyModel.Properties.Tables
 namespace Prophy.C12
 open Prophy Prophy.Accept
 
